@@ -7,6 +7,9 @@ R3 bounds: space check before every appending writer method; truncation in the s
 R4 consumed-counter coherence (mark_used)
 R5 append position of raw file reads into the fusedev buffer
 R6 async siblings agree with the sync methods (cfg A)
+R2-copy-loop VirtioFsWriter::write copies min(remaining, slice) bytes per slice, advances source and total by that amount
+R6 (cont.) unrolled async vectored I/O: the k-th operation of a group runs at the group offset plus the lengths of the k earlier buffers; FuseDevWriter async writers append each byte-slice argument once in order and account every direct write/read; async slice preparers truncate like the sync allocator
+R7 FuseDevWriter::commit arms
 """
 import re
 from pyfbr import core, vf
@@ -609,3 +612,4 @@ META = {
             "current length; consumed counters advance by the closure's result; async writer methods keep the same discipline.",
     "note": "Not decided: byte-exact contents and counter arithmetic at run time; vm-memory internals; interaction with concurrent guest writes.",
 }
+META["text"] += " " + "Also: VirtioFsWriter::write's copy loop, offsets of the unrolled async vectored I/O, effects of FuseDevWriter's async writers, truncation in the async slice preparers."
